@@ -58,6 +58,17 @@ pub struct Opts {
     pub interval: Option<usize>,
     /// require strictly ascending keys inside every block (data and index)
     pub check_order: bool,
+    /// additionally require ascending keys across consecutive data blocks
+    pub check_global_order: bool,
+}
+
+impl Opts {
+    pub fn lax() -> Opts {
+        Opts { interval: None, check_order: false, check_global_order: false }
+    }
+    pub fn strict(interval: usize) -> Opts {
+        Opts { interval: Some(interval), check_order: true, check_global_order: true }
+    }
 }
 
 fn le64(b: &[u8]) -> u64 {
@@ -381,7 +392,7 @@ pub fn decode(b: &[u8], opts: &Opts) -> Result<Decoded, String> {
             return Err(format!("blocks of depth {d} are not visited in file order"));
         }
     }
-    if opts.check_order {
+    if opts.check_global_order {
         for w in entries.windows(2) {
             if w[0].0 >= w[1].0 {
                 return Err(format!(
